@@ -299,6 +299,40 @@ func (g *opGen) gen(t *rapid.T, s *State, kind string) *Op {
 			o.Boxes = append(o.Boxes, drawBoxes(t, s, 1, 2))
 		}
 
+		// half of the batches announce messages again that the server has already (a re-sync)
+		var known []string
+
+		recovered := map[string]bool{}
+		for _, m := range s.Recovery {
+			recovered[m] = true
+		}
+
+		for _, m := range s.liveMarkers() {
+			if !recovered[m] && remoteIDOf(g.conn, m) != "" && len(s.boxesOf(m)) > 0 {
+				known = append(known, m)
+			}
+		}
+
+		if len(known) > 0 && rapid.Bool().Draw(t, "withKnown") {
+			for i, k := 0, rapid.IntRange(1, 2).Draw(t, "nKnown"); i < k && len(known) > 0; i++ {
+				j := rapid.IntRange(0, len(known)-1).Draw(t, "known")
+				m := known[j]
+				known = append(known[:j:j], known[j+1:]...)
+
+				boxes := s.boxesOf(m)
+				if rapid.IntRange(0, 2).Draw(t, "oneMore") == 0 {
+					for _, bn := range drawBoxes(t, s, 1, 1) {
+						if s.Boxes[bn].index(m) < 0 {
+							boxes = append(boxes, bn)
+						}
+					}
+				}
+
+				o.Known = append(o.Known, m)
+				o.KnownBoxes = append(o.KnownBoxes, boxes)
+			}
+		}
+
 		return o
 
 	case "MessageUpdated":
@@ -346,6 +380,26 @@ func (g *opGen) prepareRemote(o *Op) error {
 			}
 
 			o.RemoteIDs = append(o.RemoteIDs, string(rm.ID))
+		}
+
+		for i, m := range o.Known {
+			id := remoteIDOf(g.conn, m)
+			if id == "" {
+				return fmt.Errorf("harness: the remote side does not know message %s", m)
+			}
+
+			boxes, err := remoteBoxes(g.b, g.u, o.KnownBoxes[i])
+			if err != nil {
+				return err
+			}
+
+			g.conn.Lock(func() {
+				for _, bid := range boxes {
+					g.conn.Messages[imap.MessageID(id)].Boxes[bid] = true
+				}
+			})
+
+			o.KnownRemoteIDs = append(o.KnownRemoteIDs, id)
 		}
 
 	case "MessageUpdated", "MessageDeleted", "MessageMailboxesUpdated":
